@@ -93,8 +93,14 @@ func VerifSaveLoad(args []string) {
 	vFSWriteFile("sub/x.gr", "LEAK=2\n")
 	vFSWriteFile("notes.txt", "LEAK=3\n")
 	vFSWriteFile("ok.gr", "FINE=1\n")
+	vFSWriteFile("dd.gr/inner.txt", "LEAK=4\n") // a directory named like an allowed file
 	before := vFSList()
 	s := eval.NewState()
+	if len(args) > 3 && args[3] == "script" {
+		// the program is a script that lives elsewhere: that must not widen what load and save can reach
+		s.CurrentFile = "sub/main.gr"
+		vReach("running as a script from another directory")
+	}
 	var callArgs []object.Object
 	if n >= 0 {
 		callArgs = []object.Object{object.String{Value: verifName(n)}}
@@ -121,7 +127,7 @@ func VerifSaveLoad(args []string) {
 		}
 	}
 	// bait files untouched
-	for _, bait := range [][2]string{{"../secret.gr", "LEAK=1\n"}, {"sub/x.gr", "LEAK=2\n"}, {"notes.txt", "LEAK=3\n"}} {
+	for _, bait := range [][2]string{{"../secret.gr", "LEAK=1\n"}, {"sub/x.gr", "LEAK=2\n"}, {"notes.txt", "LEAK=3\n"}, {"dd.gr/inner.txt", "LEAK=4\n"}} {
 		c, ok := vFSContent(bait[0])
 		vAssert(ok && c == bait[1], "restricted/foreign-file-untouched")
 	}
